@@ -65,7 +65,7 @@ func C13() *engine.Scenario {
 		ID:    "C13",
 		Level: "fault_enumeration",
 		Setup: loadCorpus,
-		Rule: "Author -> SimDisk -> faulty reader -> real Parse. Each run takes a pristine document (a committed corpus of realistic pipelines, or an Author-generated one with every step kind, unknown steps, look-alike strings) and stores it on the simulated disk under 0-3 sched-tape-chosen faults: raw (short write, torn sectors over the previous file version, lost write: stale version or absent file, sector duplicate/swap, bit flips, byte substitution, splice of two files' sectors, zeroed range, garbage tail) or structure-aware, placed at token boundaries of the pristine document (cut at a token, replace one scalar by a scalar of another YAML type incl. .nan/.inf and tab-led multi-line strings, retarget an alias / insert merges to create value and merge cycles, delete/duplicate/swap a line, shift an indent, change the shape of `steps`). The bytes are then delivered through a reader with tape-chosen chunking, (0,nil) reads, (n,EOF), an error at offset k or premature EOF at k. Oracle: no panic, no process death, return within the watchdog; when the result is usable (nil error or warning): Steps non-nil and, against the generic decode of the same bytes (ordered.DecodeYAML), exactly one non-nil step per entry in order, recursively in groups; every UnknownStep holds its entry verbatim and then the error is a warning with at least one leaf per fallback; json.Marshal and yaml.Marshal of the result succeed. Cases whose alias expansion exceeds 10^6 nodes are outside the property and skipped (counted). Fingerprint = (fault kinds, token class at the fault, outcome class, base document). Non-trivial = at least one fault fired and the faulted document still yields a usable result or a warning.",
+		Rule:  "Author -> SimDisk -> faulty reader -> real Parse. Each run takes a pristine document (a committed corpus of realistic pipelines, or an Author-generated one with every step kind, unknown steps, look-alike strings) and stores it on the simulated disk under 0-3 sched-tape-chosen faults: raw (short write, torn sectors over the previous file version, lost write: stale version or absent file, sector duplicate/swap, bit flips, byte substitution, splice of two files' sectors, zeroed range, garbage tail) or structure-aware, placed at token boundaries of the pristine document (cut at a token, replace one scalar by a scalar of another YAML type incl. .nan/.inf and tab-led multi-line strings, retarget an alias / insert merges to create value and merge cycles, delete/duplicate/swap a line, shift an indent, change the shape of `steps`). The bytes are then delivered through a reader with tape-chosen chunking, (0,nil) reads, (n,EOF), an error at offset k or premature EOF at k. Oracle: no panic, no process death, return within the watchdog; when the result is usable (nil error or warning): Steps non-nil and, against the generic decode of the same bytes (ordered.DecodeYAML), exactly one non-nil step per entry in order, recursively in groups; every UnknownStep holds its entry verbatim and then the error is a warning with at least one leaf per fallback; json.Marshal and yaml.Marshal of the result succeed. Cases whose alias expansion exceeds 10^6 nodes are outside the property and skipped (counted). Fingerprint = (fault kinds, token class at the fault, outcome class, base document). Non-trivial = at least one fault fired and the faulted document still yields a usable result or a warning.",
 		Real:  []string{"pipeline.Parse (yaml.v3 decoder, ordered.DecodeYAML, ordered.Unmarshal, Steps/stepFromMap, every step type's UnmarshalOrdered)", "json.Marshal / yaml.Marshal of the result", "warning tree"},
 		Stub:  []string{"Author + committed corpus", "SimDisk (sector model)", "faulty io.Reader", "generic decode of the delivered bytes as the structural reference (ordered.DecodeYAML, a lower layer than the step unmarshaller being judged)"},
 		Assume: []string{"that a read error becomes a hard error is not stated by C13 and is only counted", "error text and which warning wraps which are not judged",
